@@ -89,12 +89,12 @@ theorem silentI_finishProc {w : World} (hs : SilentI w) (z : Pid) (val : Int) (s
       (wakeWaiters (finishMid w z stopped) z (if stopped then sigStopped else sigSuccess)) := by
     apply ec_wakeWaiters (tgti_closed _) hA.proc
     unfold finishMid; split
-    · exact ec_dropResources (tgti_closed _) hA.res _ _ (ec_cancelAwaiteds (tgti_closed _) hA.event hA.res _ _ hs)
-    · exact ec_cancelAwaiteds (tgti_closed _) hA.event hA.res _ _ (ec_dropResources (tgti_closed _) hA.res _ _ hs)
+    · exact ec_dropResources (tgti_closed _) ⟨hA.res, hA.cond⟩ _ _ (ec_cancelAwaiteds (tgti_closed _) hA.event ⟨hA.res, hA.cond⟩ _ _ hs)
+    · exact ec_cancelAwaiteds (tgti_closed _) hA.event ⟨hA.res, hA.cond⟩ _ _ (ec_dropResources (tgti_closed _) ⟨hA.res, hA.cond⟩ _ _ hs)
   have hcw : cnt (isIntrFor z) (wakeWaiters (finishMid w z stopped) z (if stopped then sigStopped else sigSuccess)) = 0 := by
     have h1 : cnt (isIntrFor z) (finishMid w z stopped) = 0 := by
       unfold finishMid; split
-      · have := ec_dropResources (intrLe_closed z (cancelAwaiteds w z)) hA.res (cancelAwaiteds w z) z (Nat.le_refl _)
+      · have := ec_dropResources (intrLe_closed z (cancelAwaiteds w z)) ⟨hA.res, hA.cond⟩ (cancelAwaiteds w z) z (Nat.le_refl _)
         rw [cancelAwaiteds_intr] at this; omega
       · exact cancelAwaiteds_intr _ z
     have := ec_wakeWaiters (intrLe_closed z (finishMid w z stopped)) hA.proc (finishMid w z stopped) z
@@ -171,7 +171,7 @@ theorem tgti_poolMug {st : Pid → Status} : ∀ (fuel : Nat) {w : World}, TgtI 
               · refine ih ((tgti_closed st).ev_only hT4 (by simp)) (pinv_poolUpdateRecord hP4 pl p _ (by simpa using hplt))
                   p (dra_poolUpdateRecord hD4 _ _) ?_ pl _
                 intro q; rw [← hst q]; simp
-              · apply ec_signal (tgti_closed st) hA.res
+              · apply ec_signal (tgti_closed st) ⟨hA.res, hA.cond⟩
                 exact (tgti_closed st).ev_only hT4 (by simp)
             · exact h
             · exact ec_fail (tgti_closed st) _ _ h
@@ -189,7 +189,7 @@ theorem tgti_poolLoop {st : Pid → Status} {w : World} (h : TgtI st w) (hp : PI
   · rename_i x hx
     dsimp only
     split
-    · exact ec_signal (tgti_closed st) hA.res _ _ ((tgti_closed st).ev_only h (by simp))
+    · exact ec_signal (tgti_closed st) ⟨hA.res, hA.cond⟩ _ _ ((tgti_closed st).ev_only h (by simp))
     · -- the world before the mugging loop
       have h1 : TgtI st (if x.cap - x.inUse > 0 then
           (poolUpdateRecord (recordPool (setPoolInUse w pl (x.inUse + (x.cap - x.inUse))) pl) pl p (x.cap - x.inUse),
